@@ -285,7 +285,9 @@ def run_case(case, ctx):
                               whole_number_cell=bool(case.get("whole_number_cell")))
         if built.get("int_cell"):
             st.count("synthetic_structures_with_a_cell_of_whole_numbers")
-        S, P = built["atoms"], patterns.to_atoms(pat)
+        S, P = built["atoms"], patterns.to_atoms(pat, table_order="reversed" if case["s"] % 5 == 1 else None)
+        if case["s"] % 5 == 1 and len(set(pat["elements"])) >= 2:
+            st.count("searches_with_a_pattern_whose_first_atom_is_not_of_the_first_type")
         if case["s"] % 7 == 3 and len(pat["elements"]) >= 2:
             # a pattern that asks for an element the structure does not contain (a fluorinated linker searched in the plain
             # framework): nothing matches, however the crystal is represented
